@@ -468,3 +468,19 @@ Example batch_limit_of_current_version :
   = [(0, [1; 2; 3], [0; 0; 0])] /\
   map qe_id (queue (run cfg2 (init 10) big_batch_events)) = [4].
 Proof. vm_compute. split; reflexivity. Qed.
+
+(* AN OPERATION DISCARDED AS EXPIRED STAYS IN THE UNPUBLISHED STORE.  The update (id 2) is accepted and
+   copied to the unpublished-operation store; when its batch is cut the operation handler discards it
+   as expired; only anchored operations are ever deleted from the unpublished store, so the DID keeps
+   resolving WITH the update that will never be anchored (first view); without such a store the DID
+   resolves to the create alone (second view). *)
+Definition cfg_all_unpub : config :=
+  {| c_versions := [v1]; c_unpub := [Create; Update; Recover; Deactivate]; c_by_time := false |}.
+Definition expiry_events : list event :=
+  [ESubmit ex_create 5000; EFlush true []; EObserve; ESubmit ex_update 5001; ETime 200; EFlush true [2]; EObserve].
+Example expired_stays_unpublished :
+  let st := run cfg_all_unpub (init 10) expiry_events in
+  (map qe_id (queue st), map qe_id (expired st), map (fun u => qe_id (u_q u)) (unpub st),
+   short_view cfg_all_unpub st 7, short_view cfg1 (run cfg1 (init 10) expiry_events) 7)
+  = ([], [2], [2], RView [101; 102] 21 30 false true, RView [101] 20 30 false true).
+Proof. vm_compute. reflexivity. Qed.
